@@ -3,7 +3,7 @@ NEXT Next
 CONSTANTS
   IonChoices <- Ch_w
   MaxIons = 2
-  MaxHist = 2
+  MaxHist = 1
   ScaleFactors <- S_t
   DHPoints <- NoPoints
 INVARIANT Tracks
